@@ -31,6 +31,10 @@ pub enum Hint {
     Countdown(usize),
     /// the same with an exact claim: (k - yielded, Some(k - yielded))
     CountdownExact(usize),
+    /// truthful but as loose as it gets: (0, Some(usize::MAX)) - what `(0..usize::MAX).filter(..)` reports
+    UpperMax,
+    /// (r, Some(usize::MAX))
+    LowerUpperMax,
 }
 
 #[derive(Default, Debug)]
@@ -109,6 +113,8 @@ impl<T> Iterator for ScriptIter<T> {
                 let left = k.saturating_sub(self.probe.yielded.get());
                 (left, Some(left))
             }
+            Hint::UpperMax => (0, Some(usize::MAX)),
+            Hint::LowerUpperMax => (r, Some(usize::MAX)),
         }
     }
 }
@@ -140,6 +146,8 @@ impl Hint {
             Hint::Inverted(lo, hi) => (*lo, Some(*hi)),
             Hint::Countdown(k) => (0, Some(*k)),
             Hint::CountdownExact(k) => (*k, Some(*k)),
+            Hint::UpperMax => (0, Some(usize::MAX)),
+            Hint::LowerUpperMax => (r, Some(usize::MAX)),
         };
         lo > n || hi.map(|h| h < n).unwrap_or(false)
     }
